@@ -129,6 +129,32 @@ def judge(ctx, cases):
     return out
 
 
+def branch_order_case(job):
+    """spec -> code: release branches sort by numeric-aware name, master / main last"""
+    case, k = job
+    from ak.ghist import BranchName
+    import random
+    rnd = random.Random(k)
+    seps = './-_'
+    names = []
+    for chunks in case['sorted']:
+        txt = 'origin/release'
+        for i, c in enumerate(chunks):
+            txt += ('/' if i == 0 else seps[(k + i) % 4]) + (str(c['v']) if c['k'] == 'num' else c['s'])
+        names.append(txt)
+    objs = [BranchName(n) for n in names] + [BranchName('origin/' + ('master' if k % 2 else 'main'), sort_prefix=['zzzzzzzzzzzzzz'])]
+    rnd.shuffle(objs)
+    got = [b.name for b in sorted(objs)]
+    want = names + ['origin/' + ('master' if k % 2 else 'main')]
+    if got != want:
+        return 'branches sort as %s, numeric-aware order with master last is %s' % (got, want)
+    for a in objs:
+        for b in objs:
+            if (a < b) != (want.index(a.name) < want.index(b.name)) or (a == b) != (a.name == b.name):
+                return 'comparison of %s and %s is inconsistent with the order %s' % (a.name, b.name, want)
+    return None
+
+
 def _cfg(mc, mt, mb, emit):
     return ('SPECIFICATION Spec\nCHECK_DEADLOCK FALSE\nCONSTANTS\n  MaxCommits = %d\n  MaxTags = %d\n  MaxBranches = %d\n  Emit = %s\n'
             % (mc, mt, mb, 'TRUE' if emit else 'FALSE'))
@@ -178,7 +204,17 @@ def run(ctx):
                 ctx.violation({'h': c['h'], 'branch': b},
                               'branch %s of history %s: report %s is not accepted by the report relation' % (
                                   b, json.dumps(c['h']), json.dumps(c['report'].get(b, []))), tags)
-    ctx.traces = n
+    # branch order on generated names
+    r = ctx.tlc('ghist/BranchOrder.tla', 'SPECIFICATION Spec\nCHECK_DEADLOCK FALSE\nCONSTANTS\n  MaxChunks = 2\n  NNames = %d\n  Emit = TRUE\n'
+                'INVARIANT StrictTotal\n' % (2 if ctx.quick else 3), workers=16, timeout=3000, heap='12g')
+    bo = [c for c in r.printed if isinstance(c, dict)]
+    if len(bo) < 1000:
+        raise Machinery('BranchOrder emitted %d cases' % len(bo))
+    for (c, k), prob in zip([(c, k) for k, c in enumerate(bo)], pmap(branch_order_case, [(c, k) for k, c in enumerate(bo)], chunk=500)):
+        if prob:
+            ctx.violation({'branch_order': c, 'k': k}, prob)
+    ctx.extra['branch_name_sets'] = len(bo)
+    ctx.traces = n + len(bo)
     ctx.exhaustive = False
     ctx.extra['histories_exhaustive'] = n_exh
     ctx.extra['histories_simulated'] = len(sim)
@@ -188,6 +224,8 @@ def run(ctx):
 
 
 def replay(ctx, case):
+    if 'branch_order' in case:
+        return branch_order_case((case['branch_order'], case['k']))
     o = _job(case['h'])
     if 'error' in o:
         return o['error']
